@@ -18,6 +18,7 @@ import os
 import random
 import re
 
+import shutil
 from .. import build, run, gen_schema
 from .. import c12_util as U
 
@@ -34,6 +35,10 @@ CONFIGS = [
     dict(name='dotted', factor='input path spelling', path='dotted'),
     dict(name='symlink', factor='input path spelling', path='symlink'),
     dict(name='env100k', factor='environment size', envpad=100 * 1024),
+    # EXPRESS_PATH names a directory that holds ANOTHER schema file of the same name: the file named on the command line is the input
+    dict(name='expath_bare', factor='EXPRESS_PATH naming a directory with a like-named file', expath='bare'),
+    dict(name='expath_dot', factor='EXPRESS_PATH naming a directory with a like-named file', expath='dot'),
+    dict(name='expath_abs', factor='EXPRESS_PATH naming a directory with a like-named file', expath='abs'),
     dict(name='lc_c', factor='LC_ALL', lc='C'),
     dict(name='lc_utf8', factor='LC_ALL', lc='C.UTF-8'),
     dict(name='lc_posix', factor='LC_ALL', lc='POSIX'),
@@ -244,6 +249,18 @@ def run_item(g, it):
                 env['VERIF_C12_PAD_%02d' % i] = 'x' * 2048
         if cfg.get('lc'):
             env['LC_ALL'] = cfg['lc']
+        incopy = None
+        if cfg.get('expath'):
+            decoy = os.path.join(root, 'decoy')
+            os.makedirs(decoy, exist_ok=True)
+            if cfg['expath'] != 'abs':
+                # the input is named the way a user in its directory would: a copy sits in the working directory
+                incopy = os.path.join(cwd, 'c12_input_copy.exp')
+                shutil.copyfile(inp, incopy)
+                path = {'bare': 'c12_input_copy.exp', 'dot': './c12_input_copy.exp'}[cfg['expath']]
+            with open(os.path.join(decoy, os.path.basename(path)), 'w') as f:
+                f.write(OTHER_SCHEMA)
+            env['EXPRESS_PATH'] = decoy
         if cfg.get('shim') is not None:
             env['LD_PRELOAD'] = g.shim
             env['MSHIM_SEED'] = str(g.shim_seeds[cfg['shim']])
@@ -256,6 +273,8 @@ def run_item(g, it):
                 U.fresh(cwd)
                 r = run.run(cmd, cwd=cwd, env=env, timeout=g.timeout * 2)
         res['runs'] += 1
+        if incopy is not None and os.path.exists(incopy):
+            os.unlink(incopy)
         return r, cwd, path
 
     # ---- base run
@@ -285,6 +304,8 @@ def run_item(g, it):
     for cfg in g.configs:
         if it.only is not None and cfg['name'] not in it.only:
             continue
+        if tool == 'schema_scanner' and cfg.get('expath') in ('bare', 'dot'):
+            continue    # the scanner names directories and targets after the input FILE: a copy under another name is another input
         ctx = dict(base_path=base_path)
         if cfg.get('after'):
             U.fresh(cwd_main)
@@ -392,7 +413,7 @@ def workload(chk):
             if quick and 'shipped' in tags:
                 # quick tier, shipped schemas: one LC_ALL value, and for exp2cxx (seconds per run, thousands of files) one
                 # spelling of a relative path; generated schemas and probes always get the whole matrix
-                drop = ('lc_c', 'lc_posix') + (('dotted', 'symlink') if tool == 'exp2cxx' else ())
+                drop = ('lc_c', 'lc_posix', 'expath_dot', 'expath_abs', 'shim_b', 'env100k') + (('dotted', 'symlink', 'after_other') if tool == 'exp2cxx' else ())
             names = [c['name'] for c in CONFIGS if c['name'] not in drop]
             if tool == 'exp2cxx' and len(text) > 400000:
                 # the largest inputs: split the matrix over several work items (each with its own base and repeated run)
